@@ -78,6 +78,11 @@ def gen_request(rng, idx, *, allow_close=False, body_max=300):
         headers.append(["Connection", "close"])
     elif version == "HTTP/1.0":
         headers.append(["Connection", "keep-alive"])
+    elif rng.random() < 0.07:
+        # an upgrade offer the handlers of the checks decline; framing is unaffected (RFC 9110 7.8), a body
+        # must still be read as the body and the connection goes on as HTTP/1.1
+        headers.append(["Connection", rng.choice(["Upgrade", "upgrade", "keep-alive, Upgrade"])])
+        headers.append(["Upgrade", rng.choice(["websocket", "WebSocket", "tcp", "h2c", "foo/2"])])
     return {"method": method, "target": target, "version": version, "headers": headers, "body": body}
 
 
@@ -233,6 +238,20 @@ def m_bare_cr_terminator(segs, rng):
     i = rng.choice(c)
     segs[i][2] = "\r"
     return True
+
+
+def _before_terminator(kinds, chars):
+    """A stray LF / CR / CR LF-less byte directly in front of an otherwise intact CRLF."""
+    def m(segs, rng):
+        if any(k in ("csize", "clast", "trailer") for k in kinds) and not _ensure_chunked(segs, rng):
+            return False
+        c = [i for i in _line_kinds(segs, kinds) if segs[i][2] == "\r\n"]
+        if not c:
+            return False
+        i = rng.choice(c)
+        segs[i][1] = segs[i][1] + rng.choice(chars)
+        return True
+    return m
 
 
 def _ctl_in(kinds, chars):
@@ -450,6 +469,10 @@ MUTATIONS = {
     "te_two_fields": m_te_two_fields,
     "bare_lf": m_bare_lf,
     "bare_cr_terminator": m_bare_cr_terminator,
+    "lf_before_crlf_chunk": _before_terminator(("csize", "clast"), ["\n"]),
+    "cr_before_crlf_chunk": _before_terminator(("csize", "clast"), ["\r", "\r\n\r"]),
+    "lf_before_crlf_head": _before_terminator(("rl", "h"), ["\n"]),
+    "lf_before_crlf_trailer": _before_terminator(("trailer",), ["\n"]),
     "ctl_in_value": m_ctl_in_value,
     "ctl_in_name": m_ctl_in_name,
     "ctl_in_target": _rl_variant(lambda m, t, v, r: f"{m} {t[:1]}{r.choice(['\x00', '\x01', '\t', '\r', '\n', '\x7f', '\x0b'])}{t[1:]}x {v}"),
